@@ -125,6 +125,38 @@ def owns_uncovered(peer):
     return sctp is not None and getattr(sctp, "mid", None) is None
 
 
+# fault injection at an existing suspension point: the k-th datagram a DTLS server (or client) writes during its handshake is lost
+LOSS = {"plan": None, "dropped": [], "counts": {}, "installed": False}
+
+
+def install_handshake_loss():
+    if LOSS["installed"]:
+        return
+    from OpenSSL import SSL
+    from aiortc.rtcdtlstransport import RTCDtlsTransport, State
+
+    orig = RTCDtlsTransport._write_ssl
+
+    async def _write_ssl(self):
+        plan = LOSS["plan"]
+        if plan is None or self._role != plan["role"] or self._state != State.CONNECTING:
+            return await orig(self)
+        try:
+            data = self._ssl.bio_read(1500)
+        except SSL.Error:
+            data = b""
+        if data:
+            n = LOSS["counts"].get(id(self), 0)
+            LOSS["counts"][id(self)] = n + 1
+            if n == plan["k"]:
+                LOSS["dropped"].append((self._role, n, len(data), data[0]))
+                return
+            await self.transport._send(data)
+
+    RTCDtlsTransport._write_ssl = _write_ssl
+    LOSS["installed"] = True
+
+
 class Heartbeat:
     """Counts 50 ms ticks of the running loop: a wall-clock cap only yields a verdict when the loop was alive
     (>= 60 % of the ticks it should have had), otherwise the machine was starved and the case is inconclusive."""
@@ -175,6 +207,10 @@ async def check_connectivity(a, b, out, desc, cap=20.0):
             stuck_new = [p for p in pending if p[2] == "new"]
             if stuck_new and len(stuck_new) == len(pending) and hb.healthy():
                 out.fail("transport-never-started", f"negotiated transports still 'new' after {cap:.0f} s: {pending[:6]}", desc)
+            elif hb.healthy() and LOSS["plan"] is not None and LOSS["dropped"]:
+                # exactly one handshake datagram per transport was lost; DTLS retransmits after 1 s, 2 s, 4 s...
+                out.fail("transport-never-connected", f"one DTLS handshake datagram was lost ({LOSS['dropped'][:4]}) and {cap:.0f} s later (event loop "
+                         f"alive throughout) the negotiated transports are still {pending[:6]}", desc | {"loss_plan": LOSS["plan"]})
             else:
                 out.inconclusive = f"transports still {sorted({p[2] for p in pending})} at the cap"
             hb.stop()
@@ -349,6 +385,10 @@ async def run_config(cfg, out, desc):
     from vt.rigs.pc import Peer
 
     a, b = Peer("A", cfg["offerer"]), Peer("B", cfg["answerer"])
+    LOSS.update(plan=cfg.get("handshake_loss"), dropped=[], counts={})
+    if LOSS["plan"] is not None:
+        install_handshake_loss()
+        out.counters["handshake_loss_configs"] += 1
     try:
         # out-of-band negotiated channels exist on both sides by definition
         for x, y in ((a, b), (b, a)):
@@ -369,6 +409,8 @@ async def run_config(cfg, out, desc):
             else:
                 await round_(a, b, out, desc, "follow-up")
     finally:
+        out.counters["handshake_datagrams_dropped"] += len(LOSS["dropped"])
+        LOSS["plan"] = None
         for p in (a, b):
             try:
                 await asyncio.wait_for(p.pc.close(), 15)
@@ -418,10 +460,13 @@ def run_case(index, rng, tier):
                 cfg["followup"] = None
                 for s_ in ("offerer", "answerer"):
                     cfg[s_]["items"] = [(i[0], i[1], i[2], "addTransceiver-kind", None) if i[0] == "t" else i for i in cfg[s_]["items"]]
+        elif index % 3 == 1:
+            for cfg in cfgs:
+                cfg["handshake_loss"] = {"role": rng.choice(["server", "client"]), "k": rng.randint(0, 3)}
         out.counters["kind_random"] += 1
     for cfg in cfgs:
         key = config_key(cfg) + (cfg.get("foreign"),)
-        desc = {"config": repr(key)[:700]}
+        desc = {"config": repr(key)[:700], "handshake_loss": cfg.get("handshake_loss")}
         try:
             run_async(run_config(cfg, out, desc), timeout=150)
         except asyncio.TimeoutError:
